@@ -399,6 +399,7 @@ func c15EndToEnd(rc *runCtx, nseq int, files *c15Files, hist map[string]int, not
 			return col, t, counts, nil
 		}
 		var someId *uuid.UUID
+		var sentIds []uuid.UUID
 		docNo := int64(0)
 		insert := func(np int, dupOf *uuid.UUID) error {
 			col, before, _, err := total()
@@ -420,6 +421,9 @@ func c15EndToEnd(rc *runCtx, nseq int, files *c15Files, hist map[string]int, not
 			if np > 0 {
 				firstId = points[0].Id
 			}
+			for _, p := range points {
+				sentIds = append(sentIds, p.Id)
+			}
 			failed, ierr := node.InsertPoints(col, points)
 			refused := errors.Is(ierr, cluster.ErrQuotaReached)
 			if ierr != nil && !refused {
@@ -435,6 +439,11 @@ func c15EndToEnd(rc *runCtx, nseq int, files *c15Files, hist map[string]int, not
 			}
 			term := fmt.Sprintf("CInsert %s %s %s %s %s %s", cZ(before), cZ(int64(np)), cZ(quota), cBool(refused), cZ(after), cZ(failedPoints))
 			files.add(term)
+			if dupOf != nil && np == 1 {
+				// the id is already stored in the shard this one-point range goes to
+				files.add(fmt.Sprintf("CDupInsert %s %s %s", cZ(before), cZ(after), cZ(failedPoints)))
+				hist["insert of a stored id"]++
+			}
 			files.add(fmt.Sprintf("CShardCounts %s %s", cListZ(counts), cZ(maxCount)))
 			note(fmt.Sprintf("insert|%d|%d|%d|%d|%d", before, np, quota, maxCount, failedPoints))
 			switch {
@@ -494,6 +503,28 @@ func c15EndToEnd(rc *runCtx, nseq int, files *c15Files, hist map[string]int, not
 		}
 		if err := insert(1+r.IntN(4), nil); err != nil {
 			return err
+		}
+		// the reported total against the points actually stored: every id sent so far is looked up on its own
+		{
+			col, reported, _, err := total()
+			if err != nil {
+				return err
+			}
+			stored := int64(0)
+			seen := map[uuid.UUID]bool{}
+			for _, id := range sentIds {
+				if seen[id] {
+					continue
+				}
+				seen[id] = true
+				res, err := node.SearchPoints(col, models.SearchRequest{Query: c17IdAny([]uuid.UUID{id}), Limit: 1})
+				if err != nil {
+					return fmt.Errorf("SearchPoints: %w", err)
+				}
+				stored += int64(len(res))
+			}
+			files.add(fmt.Sprintf("CStored %s %s", cZ(reported), cZ(stored)))
+			hist["stored-vs-reported comparisons"]++
 		}
 		hist["e2e sequences maxShardPointCount="+strconv.FormatInt(maxCount, 10)]++
 	}
